@@ -836,10 +836,35 @@ def check_system_design_space(ctx: Ctx) -> None:
         ctx.ob("17.8-system-design-space", con, ok, f"a variable is removed from the system design space when ANY sub-scenario optimises it; found `{'not ' if not pol else ''}{norm_stmt(node_, 80)}`: with `all`, variables local to one sub-scenario stay at system level although the sub-optimisations overwrite them", node=call, stmt="removed iff in any sub-scenario's design space")
 
 
+def check_adapter_buffer(ctx: Ctx) -> None:
+    """17.9 the adapter assembles the Jacobian of the discipline in a buffer that it keeps between calls: every block is
+    written at every call (a block skipped because it is empty THIS time keeps the derivatives of the previous point)."""
+    f = ctx.index.method(_DAD, "DisciplineAdapter", "_convert_jacobian_to_array")
+    con = cname(_DAD, "DisciplineAdapter", "_convert_jacobian_to_array")
+    cfg = cfg_of(f)
+
+    def is_store(st):
+        return isinstance(st, ast.Assign) and isinstance(st.targets[0], ast.Subscript) and (dotted(st.targets[0].value) or "").endswith("__jacobian")
+
+    n = 0
+    for lp in (l_ for l_ in stmts_of(f) if isinstance(l_, ast.For)):
+        own = [st for st in ast.walk(lp) if is_store(st)]
+        inner = [l_ for l_ in ast.walk(lp) if isinstance(l_, ast.For) and l_ is not lp and any(is_store(st) for st in ast.walk(l_))]
+        if not own or inner:
+            continue  # the innermost loop over the blocks
+        n += 1
+        head = cfg.node_of(lp)
+        start = cfg.branch.get((head, True))
+        esc = cfg.path(start, head, avoid={cfg.node_of(st) for st in own}) if start is not None else [head]
+        ctx.ob("17.9-adapter-buffer", con, esc is None, "an iteration of the block loop can end without writing its block of the reused Jacobian buffer" + (f" ({cfg.describe_path(esc)})" if esc else "") + ": the block keeps what the previous evaluation left there, so the consistency-constraint / objective Jacobian mixes two design points", node=lp, stmt="every block of the reused buffer is written at every call")
+    ctx.floor("17.9-adapter-buffer", 2)
+
+
 def run(ctx: Ctx) -> None:
     check_system_design_space(ctx)
     check_disciplinary_design_space(ctx)
     check_adapter_sizes(ctx)
+    check_adapter_buffer(ctx)
     check_equilibrium(ctx)
     check_design_spaces(ctx)
     check_constraint(ctx)
